@@ -652,6 +652,9 @@ def run(ctx, rep):
     rule_fatlen(ctx, rep)
     from . import c10
 
+    from . import c07 as _c07
+
+    _c07.rule_guard(ctx, rep)  # "exactly that block is returned once": a replacement made behind with_arc_mut's transient must reach the handle on both exits, or the old block is freed twice and the new one never
     c10.rule_thin_ctor(ctx, rep)  # R-FATLEN accepts "the length stored in the block": that equals the length the block was sized with only through the checked thin conversion
     rule_free_type(ctx, rep)
     from . import c06
